@@ -195,12 +195,105 @@ def mon_c01(case):
     return None
 
 
+def _f64(bits):
+    import struct
+    return struct.unpack("<d", struct.pack("<Q", bits & 0xFFFFFFFFFFFFFFFF))[0]
+
+
+def _ratio_ok(bits):
+    x = _f64(bits)
+    return x == x and 0.0 <= x <= 1.0
+
+
+def _fp_ok(bits):
+    x = _f64(bits)
+    return x == x and 0.0 < x < 1.0
+
+
+_B025, _B05, _B001 = 4598175219545276416, 4602678819172646912, 4576918229304087675
+# builder: number of new(..) arguments, setter -> field
+_BUILDERS = {1: (("a",), {1: "a", 2: "r1", 3: "r2"}), 2: (("a", "b"), {1: "a", 2: "b"}), 3: (("a",), {1: "a"}),
+             4: (("a", "b", "c", "d"), {1: "d", 2: "a", 3: "b", 4: "c", 5: "r1"})}
+
+
+def ctor_expect(op):
+    """the documented outcome of a constructor / builder / conversion call of the harness (kind 8), from the
+    arguments alone: None (no rule), ("ok",) or ("err", code) or ("ok_or", code)"""
+    if not op:
+        return None
+    if op[0] == 141 and len(op) >= 3 and op[1] in _BUILDERS:
+        which, mode = op[1], op[2]
+        names, setters = _BUILDERS[which]
+        f = dict(a=0, b=0, c=0, d=0, r1=_B025 if which == 1 else _B001, r2=_B05)
+        rest = op[3:]
+        if mode != 0:
+            for nme, x in zip(names, rest):
+                f[nme] = x
+            rest = rest[len(names):]
+        for i in range(0, len(rest) - 1, 2):
+            if rest[i] in setters:
+                f[setters[rest[i]]] = rest[i + 1]
+        op = {1: [140, 3, f["a"], f["r1"], f["r2"]], 2: [140, 2, f["a"], f["b"]], 3: [140, 5, f["a"]],
+              4: [140, 66, f["a"], f["b"], f["c"], f["d"], f["r1"]]}[which]
+    if op[0] != 140 or len(op) < 3:
+        return None
+    c, a = op[1], op[2:]
+    if c in (1, 5, 12, 13, 14):
+        return ("err", 1) if a[0] == 0 else ("ok",)
+    if c == 2:
+        return ("err", 1) if 0 in a[:2] else ("ok",)
+    if c in (3, 4, 9, 10, 11):
+        size = a[0]
+        rr = a[1] if c in (3, 4, 10) else _B025
+        gr = a[2] if c in (3, 4) else (a[1] if c == 11 else _B05)
+        if size == 0:
+            return ("err", 1)
+        if not _ratio_ok(rr):
+            return ("err", 2)
+        if not _ratio_ok(gr):
+            return ("err", 3)
+        return ("ok_or", 1)      # a ghost quota that floors to 0 is InvalidSize
+    if c in (6, 66):
+        w, prot, prob, samples = a[:4]
+        fp = a[4] if c == 66 else _B001
+        for x, code in ((w, 4), (prot, 5), (prob, 6), (samples, 7)):
+            if x == 0:
+                return ("err", code)
+        return ("ok",) if _fp_ok(fp) else ("err", 8)
+    if c == 8:
+        size, samples, fp = a[:3]
+        if samples == 0:
+            return ("err", 7)
+        if not _fp_ok(fp):
+            return ("err", 8)
+        return ("err", 9) if size == 0 else ("ok",)
+    return None
+
+
 def mon_c05(case):
-    """no operation (and no accepted constructor call) panics"""
+    """no operation (and no accepted constructor call) panics; constructors, builders and conversions reject exactly
+    the documented arguments with the matching error, and a conversion keeps every key with its last value"""
     for step, (op, out, cb, acct, snap) in enumerate(case["lines"], 1):
         if is_panic(out, snap):
             what = "the constructor" if op and op[0] == 98 else ("drop" if op and op[0] == 99 else f"operation {op}")
             return step, f"{what} panicked"
+        if case["kind"] == 8 and op:
+            want = ctor_expect(op)
+            if want is not None and out:
+                ok = (want[0] == "ok" and out[0] == 0) or (want[0] == "err" and out[:2] == [1, want[1]]) or \
+                     (want[0] == "ok_or" and (out[0] == 0 or out[:2] == [1, want[1]]))
+                if not ok:
+                    exp = "Ok" if want[0] == "ok" else (f"Err(code {want[1]})" if want[0] == "err" else f"Ok or Err(code {want[1]})")
+                    return step, f"constructor / builder call {op[:12]} must return {exp}, returned {out[:6]} (codes: 1 InvalidSize, 2 recent ratio, 3 ghost ratio, 4-6 window/protected/probationary size, 7 samples, 8 false positive ratio, 9 sketch width)"
+            if op[0] == 142 and len(out) >= 2:
+                pairs = list(zip(op[2::2], op[3::2]))
+                last = {}
+                for k, v in pairs:
+                    last[k] = v
+                got = dict(zip(out[2::2], out[3::2]))
+                if out[0] != max(1, len(pairs)) or out[1] != len(last) or got != last:
+                    return step, (f"conversion {op[:2]} of the pairs {pairs[:8]} must give a cache of capacity {max(1, len(pairs))} "
+                                  f"holding {last}, got capacity {out[0]} holding {got}")
     return None
 
 
@@ -208,11 +301,15 @@ def mon_c16(case):
     """clone: the clone (which replaces the original in the harness) has the same snapshot"""
     prev = None
     for step, (op, out, cb, acct, snap) in enumerate(case["lines"], 1):
+        if op and op[0] == 25 and out == [-7]:
+            return step, "the clone reports a different capacity or length (cap / len / is_empty / per-segment accessors) than the original"
         if op and op[0] == 25 and prev is not None and not is_panic(out, snap):
             if snap != prev:
                 return step, f"the clone differs from the original: {prev} -> {snap}"
             if out == [-6]:
                 return step, "dropping the original released the wrong number of keys/values"
+            if out == [-7]:
+                return step, "the clone reports a different capacity or length (cap / len / is_empty / per-segment accessors) than the original"
         if op and op[0] == 91 and out == [-6]:
             return step, "the TinyLFU clone differs from the original"
         if op and op[0] == 29 and out != [1]:
